@@ -6,6 +6,7 @@ package listMap
 // loop invariants for the implementations of value.MapStorage (the contract itself is the interface contract in package value)
 //@ func (l ListMap[V]) Get
 //@   option impl-only
+//@   assigns nothing
 //@   loop 1 invariant 0 <= rangeidx && rangeidx <= len(l) && (forall j in 0..rangeidx :: l[j].key != key)
 
 // ListMap as a value.MapStorage: a slice of key/value entries, keys pairwise different; its view (ghost functions of
@@ -14,3 +15,8 @@ package listMap
 //@ representation ListMap: forall i in 0..len(self) :: mhas(box(self), self[i].key) && mget(box(self), self[i].key) == self[i].value
 //@ representation ListMap: forall k string :: mhas(box(self), k) ==> (exists i in 0..len(self) :: self[i].key == k)
 //@ representation ListMap: mcard(box(self)) == len(self)
+
+//@ func (l ListMap[V]) Append
+//@   ensures len(result) >= len(l)
+//@   assigns l[*]
+//@   trusted
